@@ -602,7 +602,7 @@ func (q *QueryRangeService) Tail(ctx context.Context, query string) (model.IWatc
 						onErr(e.Err, res.GetRes())
 						return
 					}
-					if lastFp != e.Fingerprint {
+					if i == 0 || lastFp != e.Fingerprint {
 						if i > 0 {
 							stream.WriteArrayEnd()
 							stream.WriteObjectEnd()
